@@ -595,6 +595,15 @@ func (runInfo *runInfoStruct) invokeNilCoalescingOpExpr(expr *ast.NilCoalescingO
 			return
 		}
 	} else {
+		select {
+		case <-runInfo.ctx.Done():
+			// the left side was stopped by the cancellation: that is not a
+			// failure to fall back from
+			runInfo.err = ErrInterrupt
+			runInfo.rv = nilValue
+			return
+		default:
+		}
 		runInfo.err = nil
 	}
 	runInfo.expr = expr.RHS
